@@ -394,6 +394,29 @@ class AsyncSrc:
         return "closed-by-this-call"
 
 
+class _CloseJob:
+    """What ``AsyncSrcCloseJob.aclose()`` hands back: a future-like awaitable (not a coroutine) that closes the source WHEN
+    IT IS AWAITED - created and dropped, it has closed nothing."""
+
+    def __init__(self, st: SrcState):
+        self.st = st
+
+    def __await__(self) -> Any:
+        self.st.closed += 1
+        if self.st.log:
+            CTX.ev("close", self.st.sid)
+        return "closed-by-this-call"
+        yield  # pragma: no cover
+
+
+class AsyncSrcCloseJob(AsyncSrc):
+    """A class based async iterator whose ``aclose`` is a PLAIN method handing back a future-like awaitable (a close
+    that is scheduled elsewhere - a gather of several shutdowns, a shielded clean-up): awaiting it is what closes."""
+
+    def aclose(self) -> Any:  # type: ignore[override]
+        return _CloseJob(self.st)
+
+
 class AsyncSrcBare:
     """Class based async iterator without ``aclose``."""
 
@@ -752,7 +775,7 @@ async def _async_gen(st: SrcState):
 
 FLAVOURS_SYNC = ("list", "tuple", "getitem_seq", "sync_iter", "sync_gen", "sync_iterable", "tuple_sub", "list_sub", "sync_mapping")
 FLAVOURS_ASYNC = ("async_gen", "async_class", "async_class_bare", "async_class_full", "async_class_asend",
-                  "async_class_future", "async_class_proxy", "async_class_lazy", "async_iterable", "async_class_lateclose", "async_class_delegating", "async_class_plainnext", "async_class_eagerstart", "async_class_bare_full", "async_class_sized", "async_class_aiter_once", "async_class_awaitable", "async_class_athrow")
+                  "async_class_future", "async_class_proxy", "async_class_lazy", "async_iterable", "async_class_lateclose", "async_class_delegating", "async_class_plainnext", "async_class_eagerstart", "async_class_bare_full", "async_class_sized", "async_class_aiter_once", "async_class_awaitable", "async_class_athrow", "async_class_closejob")
 FLAVOURS = FLAVOURS_SYNC + FLAVOURS_ASYNC
 
 
@@ -855,6 +878,8 @@ def make_source(st: SrcState, flavour: str) -> Any:
         return AsyncSrcAiterOnce(st)
     if flavour == "async_class_awaitable":
         return AsyncSrcAwaitable(st)
+    if flavour == "async_class_closejob":
+        return AsyncSrcCloseJob(st)
     if flavour == "async_class_asend":
         return AsyncSrcAsend(st)
     if flavour == "async_class_athrow":
